@@ -49,7 +49,15 @@ SUSPECTED_FINDINGS = [
                  'overflows. The manual says divisions follow mpz_tdiv_q / mpz_tdiv_r: the results are 2^63 and 0.',
          repro='#include <mpirxx.h>\n#include <climits>\nint main(){ mpz_class a(-1), r; r = LONG_MIN / a; /* killed by SIGFPE, '
                'expected r == 9223372036854775808 */ return r.fits_slong_p(); }',
-         excluded='value tuples with a long operand equal to LONG_MIN on the left of / or % and divisor -1 are skipped at run time'),
+         excluded='covered by the LONG_MIN skip of long_min_negation_ub'),
+    dict(id='long_min_negation_ub',
+         summary='mpirxx.h negates signed long operands in machine arithmetic (-l, static_cast<mpir_ui>(-l), __gmpxx_abs_ui) in the '
+                 'mpz/mpq/mpf functors for + - * / % gcd lcm; for l == LONG_MIN this is signed overflow (undefined behaviour). '
+                 'g++ 12 -O1 happens to produce 2^63, clang++ 14 -O1 produces a wrong value.',
+         repro='#include <mpirxx.h>\n#include <climits>\n#include <iostream>\nint main(){ mpz_class a("-17702697211180479013"); '
+               'a %= LONG_MIN; std::cout << a << "\\n"; } /* clang++ -O1: -207785848; mpz_tdiv_r gives -8479325174325703205 */',
+         excluded='value tuples in which a long operand of an arithmetic operator equals LONG_MIN are skipped at run time; '
+                  'the literal LONG_MIN is not generated (comparisons with LONG_MIN are still generated)'),
 ]
 
 
@@ -191,7 +199,8 @@ class Shrinker:
             if not hit: break
             t = hit[0]
         kv = dict(x.split('=', 1) for x in values.split())
-        used = set(re.findall(r'\b(a|b|c|q|r|s|f|g|h|i1|i2|u1|u2|l1|l2|ul1|ul2|di1|di2|dq1|dq2|sh1|sh2)\b', t.src)) if t.root is not None else set(kv)
+        used = set(re.findall(r'\b(a|b|c|q|r|s|f|g|h|i1|i2|u1|u2|l1|l2|ul1|ul2|di1|di2|dq1|dq2|sh1|sh2)\b', t.src.split('//')[0]))
+        if t.root is None: used |= set(re.findall(r'C\.(\w+)', ' '.join(t.body))) | {'l1', 'u1', 'u2'}   # rt.h stream helpers read these
 
         def simple(k, level):
             if k in 'abc': return ['0x0', '0x1', low(kv[k])][level]
@@ -284,7 +293,8 @@ def check(args, scratch, res):
             if p['harness'] or (rc not in (0, 1)) or (rc == 1 and not p['mismatches']) or (rc == 0 and not p['summary']):
                 faults.append('tu%03d: exit %s %s %s' % (tu, rc, p['harness'] or '', io[1].strip()[-300:]))
     res.update(evaluations=evals, skipped_div_by_zero=div0, skipped_domain=dom, skipped_ambiguous_mpf_builtin=amb)
-    res['excluded_shapes']['long_min_div_minus_one(value tuples skipped at run time)'] = fnd
+    res['excluded_shapes']['long_min_operand(value tuples skipped at run time)'] = fnd
+    res['program_faults'] = faults[:10]
     if mism:
         mism.sort(key=lambda m: (m['func'], m['tuple']))
         res['mismatching_functions'] = sorted(set(m['func'] for m in mism))[:50]
